@@ -2,11 +2,12 @@
 SPECIFICATION Spec
 CONSTANTS Names <- NamesSmall
           Types <- TypesAll
-          Bodies = {"x", ""}
+          Bodies = {"x"}
           Modes <- ModesAll
           Mtimes <- MtimesAll
           MaxNodes = 3
           MaxDepth = 3
+          MinNodes = 1
           Devs = {}
-INVARIANTS TypeOK RoundTrip ShallowWalk EscapedSafe EscapeInverse ConsumesAll
+INVARIANTS TypeOK RoundTrip ShallowWalk EscapedSafe
 CHECK_DEADLOCK FALSE
